@@ -56,7 +56,8 @@ def run(chk):
   cases = []
   for i in range(5000 if thorough else 330):
     n = rng.choice([1, 2, 3])
-    prog = LP.gen_program(rng, n, max_depth=rng.choice([1, 2, 3, 4] if thorough else [1, 2, 3]), malformed=0.08 if i % 5 == 0 else 0.0)
+    prog = LP.gen_program(rng, n, max_depth=rng.choice([1, 2, 3, 4] if thorough else [1, 2, 3]), malformed=0.08 if i % 5 == 0 else 0.0,
+                           name_pool=['w', 'inner', 'h'] if i % 15 == 0 else None, input_shaped=0.3 if i % 4 == 1 else 0.0)
     streams = rng.choice([['params'], ['params', 'dropout'], ['params', 'dropout', 'noise'], ['dropout'], []])
     cases.append({'prog': prog, 'x': [rng.randint(-3, 3) for _ in range(n)], 'streams': streams, 'mutable': LP.gen_filter(rng),
                   'repeat': rng.choice([1, 2, 3]), 'frozen': rng.random() < 0.3,
